@@ -145,9 +145,14 @@ impl Snapshot {
     /// Recreate the snapshot below `root` (which must exist and be empty).
     pub fn materialise(&self, root: &Path) -> io::Result<()> {
         let mut dir_modes: Vec<(PathBuf, u32)> = Vec::new();
+        let mut hard_links: Vec<(PathBuf, PathBuf)> = Vec::new();
         for (k, n) in &self.0 {
             let p = root.join(OsStr::from_bytes(k));
             match n {
+                // a second name for the regular file at the given key (created once everything else exists)
+                Node::Other { what } if what.starts_with("hardlink:") => {
+                    hard_links.push((root.join(&what["hardlink:".len()..]), p));
+                }
                 Node::Dir { mode } => {
                     fs::create_dir(&p)?;
                     dir_modes.push((p, *mode));
@@ -173,6 +178,9 @@ impl Snapshot {
                     return Err(io::Error::other(format!("cannot materialise {what}")));
                 }
             }
+        }
+        for (target, p) in hard_links {
+            fs::hard_link(&target, &p)?;
         }
         // deepest first so that restrictive parents do not block children
         for (p, mode) in dir_modes.into_iter().rev() {
